@@ -110,6 +110,39 @@ fn wire_case(srv: &Srv, n: u8, write: bool, with_opts: bool) -> Vec<(String, Str
     viol
 }
 
+/// A peer that leaves as soon as it has seen the FIRST copy of the final ACK (like tftpc, which never dallies): the
+/// remaining copies go to a closed port; the completed upload must stay in place.
+fn peer_leaves_early(srv: &Srv, n: u8) -> Vec<(String, String)> {
+    let mut viol = vec![];
+    let body = content(700, 62);
+    let name = format!("dupleave_{}", std::process::id());
+    let path = format!("{}/{}", srv.recv_dir, name);
+    let _ = std::fs::remove_file(&path);
+    let n1 = n as usize + 1;
+    {
+        let mut c = Client::new(srv.addr);
+        c.to_server(&rc::request(true, name.as_bytes(), &[]));
+        if c.recv_wait(BACKSTOP).is_none() {
+            return vec![("wire-multiplicity".into(), "peer-leaves-early: WRQ not answered".into())];
+        }
+        c.to_peer(&rc::data(1, &body[..512]));
+        let got = collect_copies(&mut c, n1);
+        if got.is_empty() {
+            viol.push(("content".into(), format!("N={n} peer-leaves-early: no ACK(1)")));
+        }
+        c.to_peer(&rc::data(2, &body[512..]));
+        // first copy of the final ACK, then leave at once (socket closed when `c` goes out of scope)
+        let _ = c.recv_wait(BACKSTOP);
+    }
+    quiesce();
+    let stored = std::fs::read(&path).ok();
+    if stored.as_deref() != Some(&body[..]) {
+        viol.push(("completed-upload-lost".into(), format!("N={n}: the client left after the first copy of the final ACK; the completed upload is {} afterwards", match stored { None => "missing".to_string(), Some(b) => format!("{} bytes instead of {}", b.len(), body.len()) })));
+    }
+    let _ = std::fs::remove_file(&path);
+    viol
+}
+
 pub fn wire_cell(spec: &Value) -> Value {
     let cfg = SrvCfg::from_json(&spec["srv"]);
     let mut c = Counters::default();
@@ -128,6 +161,15 @@ pub fn wire_cell(spec: &Value) -> Value {
             for (clause, what) in v {
                 c.violations.push(Violation { property: "C16".into(), clause, facts: facts(&[("n", json!(cfg.dup))]), what: format!("[{}] {}", cfg.brief(), what), replay: json!({"engine": "c16_wire", "srv": cfg.to_json()}), weight: cfg.dup as u64 });
             }
+        }
+    }
+    for _rep in 0..3 {
+        let v = peer_leaves_early(&srv, cfg.dup);
+        c.executions += 1;
+        c.states += 1;
+        c.transitions += 6;
+        for (clause, what) in v {
+            c.violations.push(Violation { property: "C16".into(), clause, facts: facts(&[("n", json!(cfg.dup)), ("single", json!(cfg.single))]), what: format!("[{}] {}", cfg.brief(), what), replay: json!({"engine": "c16_wire", "srv": cfg.to_json()}), weight: cfg.dup as u64 });
         }
     }
     // the ERROR reply to a request for a missing file is sent once
@@ -182,40 +224,52 @@ pub fn config_cell(_spec: &Value) -> Value {
     // the real binary: 254 starts, 255 and 256 exit with an error
     if std::path::Path::new(&tftpd_path()).exists() {
         for (n, must_run) in [(254u32, true), (255, false), (256, false)] {
-            let port = free_port(false);
             let dir = format!("{}/c16bin", scratch_root());
             let _ = std::fs::create_dir_all(&dir);
-            let mut cmd = std::process::Command::new(tftpd_path());
-            cmd.args(["-p", &port.to_string(), "-d", &dir, "--duplicate-packets", &n.to_string()]).stdout(std::process::Stdio::null()).stderr(std::process::Stdio::null());
-            die_with_parent(&mut cmd);
-            let mut child = match cmd.spawn() {
-                Ok(ch) => ch,
-                Err(e) => {
-                    c.machinery_errors.push(format!("spawn tftpd: {e}"));
-                    continue;
-                }
-            };
-            let t0 = Instant::now();
+            // (a start-up failure of the accepted value is retried on another port: two shards may pick the same free port)
             let mut status = None;
-            while t0.elapsed() < Duration::from_millis(if must_run { 300 } else { 3000 }) {
-                if let Ok(Some(st)) = child.try_wait() {
-                    status = Some(st);
+            let mut spawn_err = None;
+            for _attempt in 0..5 {
+                let port = free_port(false);
+                let mut cmd = std::process::Command::new(tftpd_path());
+                cmd.args(["-p", &port.to_string(), "-d", &dir, "--duplicate-packets", &n.to_string()]).stdout(std::process::Stdio::null()).stderr(std::process::Stdio::null());
+                die_with_parent(&mut cmd);
+                let mut child = match cmd.spawn() {
+                    Ok(ch) => ch,
+                    Err(e) => {
+                        spawn_err = Some(format!("spawn tftpd: {e}"));
+                        break;
+                    }
+                };
+                let t0 = Instant::now();
+                status = None;
+                while t0.elapsed() < Duration::from_millis(if must_run { 300 } else { 3000 }) {
+                    if let Ok(Some(st)) = child.try_wait() {
+                        status = Some(st);
+                        break;
+                    }
+                    std::thread::sleep(Duration::from_millis(5));
+                }
+                let _ = child.kill();
+                let _ = child.wait();
+                if !(must_run && status.is_some()) {
                     break;
                 }
-                std::thread::sleep(Duration::from_millis(5));
+            }
+            if let Some(e) = spawn_err {
+                c.machinery_errors.push(e);
+                continue;
             }
             c.executions += 1;
             c.states += 1;
             c.transitions += 1;
             c.nontrivial += 1;
             let bad = match (must_run, status) {
-                (true, Some(st)) => Some(format!("tftpd --duplicate-packets {n} exited at start-up with {st}")),
+                (true, Some(st)) => Some(format!("tftpd --duplicate-packets {n} exited at start-up with {st} (5 attempts on different ports)")),
                 (false, None) => Some(format!("tftpd --duplicate-packets {n} keeps running; it must be rejected at start-up")),
                 (false, Some(st)) if st.success() => Some(format!("tftpd --duplicate-packets {n} exited with success status")),
                 _ => None,
             };
-            let _ = child.kill();
-            let _ = child.wait();
             if let Some(b) = bad {
                 c.violations.push(Violation { property: "C16".into(), clause: "startup-range".into(), facts: facts(&[("n", json!(n))]), what: b, replay: json!({"engine": "c16_cfg", "n": n}), weight: n as u64 });
             }
